@@ -238,7 +238,7 @@ RULES.update({
                 "call returns for 20 s while process CPU time stands still. Distinct non-trivial = distinct sequences of other "
                 "threads' lock attempts observed inside a double-lock window (encaps..relock of encrypt / header generate).",
         "evaluation_counters": ["ops", "decaps_authorized_ok", "decaps_unauthorized_refused"],
-        "min_evaluations": {"quick": 10000, "thorough": 100000},
+        "min_evaluations": {"quick": 3000, "thorough": 30000},
     },
 })
 
